@@ -129,6 +129,7 @@ def generate(ctx):
         if sp['spacing'] != 'equiangular_with_poles':
             yield 'analytic', {'grid': sp}
             yield 'sec2_hyp', {'grid': sp}
+            yield 'roundtrip_basis', {'grid': sp}
             for rep in range(2 if quick else 4):
                 yield 'vecid', {'grid': sp, 'seed': int(rng.integers(0, 2 ** 31))}
         yield 'spectral_id', {'grid': sp, 'seed': int(rng.integers(0, 2 ** 31))}
@@ -541,6 +542,36 @@ def r_vecid(ctx, a):
                          np.stack([np.asarray(v2), np.asarray(d2)]), np.stack([vor, div]), scale=s)
 
 
+def r_roundtrip_basis(ctx, a):
+    """Wind round trip on every basis vector (as vorticity and as divergence):
+    default clips: exact for degree <= L-3; vor_div_to_uv_nodal(clip=False): exact up to degree L-2
+    (in particular the coefficient l = L-2 itself is reproduced exactly)."""
+    jnp, sh, fourier, jnu = J()
+    G_ = grid(a['grid']); g = G_.g; R, C, L = G_.R, G_.C, G_.L
+    if not _resolves(G_) or L < 3:
+        ctx.count('roundtrip_basis skipped (grid does not resolve the products)'); return
+    for ca, top in ((True, L - 3), (False, L - 2)):
+        idx = [(i, l) for i in range(R) for l in range(1, top + 1) if G_.mask[i, l]]
+        if not idx: continue
+        X = np.zeros((len(idx), R, C))
+        for t, (i, l) in enumerate(idx): X[t, i, l] = 1.0
+        Z = np.zeros_like(X)
+        vor = np.concatenate([X, Z]); div = np.concatenate([Z, X])
+        u, v = sh.vor_div_to_uv_nodal(g, jnp.asarray(vor), jnp.asarray(div), clip=ca)
+        v2, d2 = sh.uv_nodal_to_vor_div_modal(g, u, v)
+        err = np.maximum(np.abs(np.asarray(v2) - vor), np.abs(np.asarray(d2) - div)).reshape(2 * len(idx), -1).max(axis=1)
+        tol = 2.0 ** -36 * L
+        badk = [k for k in range(2 * len(idx)) if not err[k] <= tol]
+        det = None
+        if badk:
+            k = badk[0]; i, l = idx[k % len(idx)]
+            det = {'as': 'vorticity' if k < len(idx) else 'divergence', 'row': i, 'm': int(G_.m[i]), 'l': l, 'err': float(err[k]), 'tol': tol}
+        ctx.oracle('vorticity/divergence -> wind -> vorticity/divergence is the identity on every basis vector of degree <= L-%d (first clip=%s)'
+                   % (L - top, ca), not badk, det)
+        if not ca:
+            ctx.count('roundtrip one-hots at l=L-2 with clip=(False,True)', sum(1 for (_, l) in idx if l == L - 2))
+
+
 def r_spectral_id(ctx, a):
     """Algebraic identities of the coefficient operators, on the implementation."""
     jnp, sh, fourier, jnu = J()
@@ -595,4 +626,4 @@ def r_spectral_id(ctx, a):
 
 RUNNERS = {'shift': r_shift, 'shift2d': r_shift2d, 'clip_reject': r_clip_reject, 'fourier_deriv': r_fourier_deriv,
            'tables': r_tables, 'onehot': r_onehot, 'random_ops': r_random_ops, 'analytic': r_analytic,
-           'sec2_hyp': r_sec2_hyp, 'vecid': r_vecid, 'spectral_id': r_spectral_id}
+           'sec2_hyp': r_sec2_hyp, 'vecid': r_vecid, 'roundtrip_basis': r_roundtrip_basis, 'spectral_id': r_spectral_id}
